@@ -168,7 +168,7 @@ impl LangInterpreter for Italian {
                     Err(Error::Overlap)
                 }
             }
-            "centuno" | "centun" | "centunesimo" => b.put(b"101"),
+            "centuno" | "centun" | "centunesim" => b.put(b"101"),
             "mille" if b.is_range_free(3, 5) => b.put(b"1000"),
             "mila" if b.is_range_free(3, 5) => {
                 let peek = b.peek(3);
